@@ -1,11 +1,12 @@
 (* C12 — Prepared statements behave like the inlined statement text.
    Only statements, each closed by [exact], each followed by Print Assumptions. *)
-From Coq Require Import List ZArith Bool.
+From Coq Require Import List ZArith NArith Bool String Decimal.
 Import ListNotations.
-From GMS Require Import Lang.C12Prepared Lang.C12PreparedProofs.
+From GMS Require Import Lang.C12Prepared Lang.C12PreparedProofs Lang.C12Binding Lang.C12BindingProofs.
 
 (* substitution lemma: evaluating an expression with the bindings supplied at execution time equals evaluating
-   the expression in which every bound hole has been replaced by the value as a literal — for all expressions,
+   the expression in which every bound hole has been replaced by the value as a literal — over NULL, integers
+   (signed and unsigned 64-bit), exact decimals and strings, for all expressions,
    all binding lists (short ones included: an unbound hole fails the same way on both sides) and all rows *)
 Theorem C12_eval_bound_eq_eval_subst :
   forall (bs : bindings) (r : row) (e : expr), eval bs r e = eval [] r (subst bs e).
@@ -27,7 +28,7 @@ Print Assumptions C12_history_prepared_eq_history_inlined.
 
 (* when every hole has a value, the inlined text has no holes left *)
 Theorem C12_inlined_text_is_closed :
-  forall (bs : bindings) (e : expr), holes_below (length bs) e = true -> closed (subst bs e) = true.
+  forall (bs : bindings) (e : expr), holes_below (List.length bs) e = true -> closed (subst bs e) = true.
 Proof. exact subst_closed. Qed.
 Print Assumptions C12_inlined_text_is_closed.
 
@@ -39,3 +40,71 @@ Example C12_nonvacuous :
      Select [Col 0; Add (Col 1) (Lit (VInt 3))] (Or (Eq (Col 1) (Lit (VInt 5))) (InList (Col 0) [ALit (VInt 3); ALit VNull])).
 Proof. exact nonvacuous_example. Qed.
 Print Assumptions C12_nonvacuous.
+
+(* wire type => literal: for every argument kind of the model (NULL, signed and unsigned 64-bit integers, decimal
+   text of scale <= 30, character and binary strings) carried by any wire type of its class, the literal of the
+   live path (server/handler.go bindingsToExprs ; Builder.ConvertVal), the literal the parser builds from the text
+   the inlining printer writes (digits, decimal text, quoted string with ' and \ escaped, NULL), and the literal
+   of engine.go bindingsToExprs all evaluate to the value of the argument *)
+Theorem C12_literal_of_binding_denotes :
+  forall (t : wtype) (p : pval), compat t p = true -> wf p ->
+    denote_opt (handler_lit (binding_of t p)) = Some (value_of p)
+    /\ denote_text (scan (print p)) = Some (value_of p)
+    /\ denote_opt (engine_lit (binding_of t p)) = Some (value_of p).
+Proof. exact literal_of_binding_denotes. Qed.
+Print Assumptions C12_literal_of_binding_denotes.
+
+(* stronger, on the live path: the binding IS the token the parser produces for the printed text (same kind, same
+   bytes); a negative decimal is the one exception (the parser yields unary minus over the positive token) *)
+Theorem C12_binding_ast_is_parsed_text :
+  forall (t : wtype) (p : pval), compat t p = true -> wf p -> neg_dec p = false ->
+    option_map TE (handler_ast (binding_of t p)) = scan (print p).
+Proof. exact binding_ast_is_parsed_text. Qed.
+Print Assumptions C12_binding_ast_is_parsed_text.
+
+(* DATE / DATETIME / TIMESTAMP / TIME / ENUM / SET / JSON / GEOMETRY / BLOB ... bindings reach the engine as the
+   LONGTEXT string literal of their text, exactly what a quoted literal in the statement text becomes *)
+Theorem C12_quoted_binding_is_string_literal :
+  forall (t : wtype) (s : string), is_quoted t = true ->
+    handler_lit {| b_type := t; b_val := s |} = Some (LS s, TLongText).
+Proof. exact quoted_binding_is_string_literal. Qed.
+Print Assumptions C12_quoted_binding_is_string_literal.
+
+(* BIT and EXPRESSION bindings cannot be executed at all on the live path *)
+Theorem C12_unconvertible_bindings_partial :
+  forall s : string,
+    handler_lit {| b_type := WBit; b_val := s |} = None /\ handler_lit {| b_type := WExpression; b_val := s |} = None.
+Proof. exact unconvertible_bindings. Qed.
+Print Assumptions C12_unconvertible_bindings_partial.
+
+(* end to end: evaluating with the values of the typed bindings equals evaluating the statement in which every hole
+   has been replaced by the literal parsed from the printed text — expressions and whole statements (rows + table) *)
+Theorem C12_eval_typed_bindings_eq_eval_inlined_text :
+  forall (tps : list typed) (r : row) (e : expr), Forall typed_ok tps ->
+    eval (map (fun tp => bound_value (fst tp) (snd tp)) tps) r e
+    = eval [] r (subst (map (fun tp => text_value (snd tp)) tps) e).
+Proof. exact eval_typed_bindings_eq_eval_inlined_text. Qed.
+Print Assumptions C12_eval_typed_bindings_eq_eval_inlined_text.
+
+Theorem C12_exec_typed_bindings_eq_exec_inlined_text :
+  forall (tps : list typed) (s : stmt) (d : db), Forall typed_ok tps ->
+    exec (map (fun tp => bound_value (fst tp) (snd tp)) tps) s d
+    = exec [] (subst_stmt (map (fun tp => text_value (snd tp)) tps) s) d.
+Proof. exact exec_typed_bindings_eq_exec_inlined_text. Qed.
+Print Assumptions C12_exec_typed_bindings_eq_exec_inlined_text.
+
+Example C12_binding_nonvacuous :
+  let tps := [(WInt64, PInt (-5)%Z); (WUint64, PUint 18446744073709551615%Z); (WDecimal, PDec (Neg (D1 Nil)) (D2 (D5 Nil)));
+              (WVarChar, PStr "a'b\c"%string); (WNull, PNull); (WInt8, PInt 7%Z)] in
+  Forall typed_ok tps
+  /\ map (fun tp => print (snd tp)) tps = ["-5"; "18446744073709551615"; "-1.25"; "'a''b\\c'"; "NULL"; "7"]%string
+  /\ map (fun tp => handler_lit (binding_of (fst tp) (snd tp))) tps
+     = [Some (LZ (-5)%Z, TInt8); Some (LZ 18446744073709551615%Z, TUint64); Some (LDec (-125)%Z 2%N, TDecimalLit);
+        Some (LS "a'b\c"%string, TLongText); Some (LNil, TNull); Some (LZ 7%Z, TInt8)]
+  /\ map (fun tp => engine_lit (binding_of (fst tp) (snd tp))) tps
+     = [Some (LZ (-5)%Z, TInt64); Some (LZ 18446744073709551615%Z, TUint64); Some (LDec (-125)%Z 2%N, TDecimalInternal);
+        Some (LS "a'b\c"%string, TString WVarChar 5%N); Some (LNil, TNull); Some (LZ 7%Z, TInt64)]
+  /\ map (fun tp => text_value (snd tp)) tps
+     = [VInt (-5)%Z; VInt 18446744073709551615%Z; VDec (-125)%Z 2%N; VStr "a'b\c"%string; VNull; VInt 7%Z].
+Proof. exact binding_nonvacuous. Qed.
+Print Assumptions C12_binding_nonvacuous.
